@@ -702,6 +702,46 @@ func checkC21(env *kernel.Env) {
 	if env.Tier == "thorough" {
 		steps = T.Range(3, 30)
 	}
+	if T.Bool(1, 5) {
+		// a side table with a composite primary key: renaming / retyping one of the key
+		// columns keeps the key (its column order, what it refuses, what it finds)
+		s1.MustExec("CREATE TABLE ck (a INT, b INT, c INT, PRIMARY KEY (a, b))")
+		s1.MustExec("INSERT INTO ck VALUES (1, 1, 1), (1, 2, 2), (2, 1, 5)")
+		names := []string{"a", "b"}
+		for i, n := 0, T.Range(1, 3); i < n && !env.Failed(); i++ {
+			k := T.Draw(2)
+			m.nextC++
+			to := fmt.Sprintf("k%d", m.nextC)
+			q := fmt.Sprintf("ALTER TABLE ck RENAME COLUMN %s TO %s", names[k], to)
+			switch T.Draw(3) {
+			case 1:
+				q = fmt.Sprintf("ALTER TABLE ck CHANGE COLUMN %s %s BIGINT NOT NULL", names[k], to)
+			case 2:
+				q, to = fmt.Sprintf("ALTER TABLE ck MODIFY COLUMN %s BIGINT NOT NULL", names[k]), names[k]
+			}
+			r := s1.Exec(q)
+			env.Kind("composite-key-column-change")
+			env.Logf("s1: %s -> %s", q, ErrClass(r.Err))
+			if r.Err != nil {
+				env.Fail("representable-change-succeeds", "valid-alter-refused:composite-key", "%q failed: %v", q, r.Err)
+				break
+			}
+			names[k] = to
+			sc := s2.Exec("SHOW CREATE TABLE ck")
+			wantKey := fmt.Sprintf("PRIMARY KEY (`%s`,`%s`)", names[0], names[1])
+			if sc.Err != nil || len(sc.Rows) != 1 || !strings.Contains(fmt.Sprint(sc.Rows[0][1]), wantKey) {
+				env.Fail("schema-reported", "composite-key-order-changed", "after %q SHOW CREATE TABLE ck does not show %s:\n%v (err %v)", q, wantKey, sc.Rows, sc.Err)
+				break
+			}
+			dup := s1.Exec("INSERT INTO ck VALUES (1, 2, 9)")
+			fresh := s1.Exec(fmt.Sprintf("INSERT INTO ck VALUES (2, %d, 0)", 10+i))
+			cnt := s2.Exec(fmt.Sprintf("SELECT COUNT(*) FROM ck WHERE %s = 1", names[0]))
+			if ErrClass(dup.Err) != "duplicate-key" || fresh.Err != nil || cnt.Err != nil || FormatVal(cnt.Rows[0][0]) != "2" {
+				env.Fail("data-preserved", "composite-key-broken-after-alter", "after %q: inserting the existing key (1,2) -> %v, a new key (2,%d) -> %v, rows with %s = 1: %v (err %v); want duplicate-key / ok / 2", q, dup.Err, 10+i, fresh.Err, names[0], FormatRows(cnt.Rows, true), cnt.Err)
+				break
+			}
+		}
+	}
 	faults := T.Bool(1, 2)
 	for step := 0; step < steps && !env.Failed(); step++ {
 		if T.Bool(1, 4) {
